@@ -820,6 +820,9 @@ func e2eRAOracle(c e2eCase, run *e2eRun, pfx string, full bool) error {
 	}
 	d := func() string { return e2eDesc(c, run) }
 	for pi, p := range run.Probes {
+		if p.Status == 0 {
+			return e2eSkip{"a debug API request got no HTTP answer within the client's 10 s"}
+		}
 		if p.Status != 200 {
 			return verifkit.Violf(pfx+"/api-status", "probe %d: GET /_/api/interfaces -> %d %s\n%s", pi, p.Status, firstN(string(p.Body), 300), d())
 		}
@@ -859,6 +862,9 @@ func e2eRAOracle(c e2eCase, run *e2eRun, pfx string, full bool) error {
 				return fmt.Errorf("%w\n%s", err, d())
 			}
 		}
+	}
+	if full && run.Metrics.Status == 0 {
+		return e2eSkip{"the /metrics request got no HTTP answer within the client's 10 s"}
 	}
 	if want := map[bool]int{true: 200, false: 404}[c.Prom]; full && run.Metrics.Status != want {
 		return verifkit.Violf(pfx+"/metrics-status", "GET /metrics -> %d, want %d (prometheus=%v)\n%s\n%s", run.Metrics.Status, want, c.Prom, firstN(string(run.Metrics.Body), 1500), d())
